@@ -31,7 +31,15 @@
 //!   R  receipt lists of every length 0..=300 (quick) / 0..=1500 (thorough) x 3
 //!      receipt schedules x 6 ways of getting a root;
 //!   X  executed scripts with k = 0..=40 (quick) / 0..=120 (thorough) log receipts
-//!      x 3 endings x {fresh VM, reused VM}.
+//!      x 3 endings x {fresh VM, reused VM}; plus scripts at the receipt limit: LOG in
+//!      a loop until TooManyReceipts, MAX-2 logs then a panic (+ MAX-3 logs then RET in
+//!      the thorough tier);
+//!   L  ReceiptsCtx at the receipt limit: contexts filled to 65,532 / 65,533 / 65,534 /
+//!      65,535 receipts, then every sequence of <= 2 (quick) / <= 3 (thorough) further
+//!      push attempts over {Log, Panic, ScriptResult} (accepted or rejected - only
+//!      observed, the limit rule itself is C28's); after the sequence root() must be
+//!      the MTH of the receipts the context actually holds (`as_ref()`); also through
+//!      `Interpreter::receipts_mut` + `compute_receipts_root` for sequences <= 1.
 
 #[path = "../binmerkle.rs"]
 mod binmerkle;
@@ -424,12 +432,111 @@ fn check_receipts(s: u8, k: u64, op: &str, acc: &mut Acc) {
     acc.cmp("receipts_ctx", op, list.len() as u64, got, &exp, || json!({"kind": "receipts", "s": s, "k": k, "op": op}));
 }
 
+// ------------------------------------------------------------------ receipts at the limit
+
+const LIMIT_FILLS: [u64; 4] = [65_532, 65_533, 65_534, 65_535];
+const LIMIT_ATTEMPTS: [&str; 3] = ["log", "panic", "script_result"];
+
+fn limit_receipt(kind: u64, p: u64) -> Receipt {
+    match kind {
+        0 => Receipt::log(Default::default(), p, 1, 2, 3, 4, 8),
+        1 => Receipt::panic(b32(0x11, p).into(), PanicInstruction::error(PanicReason::TooManyReceipts, 0x4700_0000), p, 4),
+        _ => Receipt::script_result(ScriptExecutionResult::Panic, p),
+    }
+}
+
+/// A context holding `fill` receipts: logs, then (if needed to get that far) a Panic in
+/// the second-to-last slot and a ScriptResult in the last. `None` when the context
+/// refuses to be filled this way (recorded, not judged).
+fn limit_base(fill: u64) -> Option<ReceiptsCtx> {
+    let max = ReceiptsCtx::MAX_RECEIPTS as u64;
+    guard::catch_any(|| {
+        let mut c = ReceiptsCtx::default();
+        for p in 0..fill {
+            let kind = if p < max - 2 { 0 } else if p == max - 2 { 1 } else { 2 };
+            c.push(limit_receipt(kind, p)).ok()?;
+        }
+        Some(c)
+    })
+    .ok()
+    .flatten()
+}
+
+fn limit_case(fill: u64, attempts: &[u64], route: &str) -> Value {
+    json!({"kind": "limit", "fill": fill, "attempts": attempts, "route": route})
+}
+
+/// Apply the attempts to a copy of `base`, then compare the root with the MTH of the
+/// receipts the context holds afterwards.
+fn check_limit(base: &ReceiptsCtx, fill: u64, attempts: &[u64], route: &str, acc: &mut Acc) {
+    let obs = guard::catch_any(|| {
+        let mut outcomes = vec![];
+        let mut go = |c: &mut ReceiptsCtx| {
+            for (j, a) in attempts.iter().enumerate() {
+                let r = c.push(limit_receipt(*a, 1_000_000 + j as u64));
+                outcomes.push(format!("{}:{}", LIMIT_ATTEMPTS[*a as usize], if r.is_ok() { "Ok" } else { "Err" }));
+            }
+        };
+        let (root, list) = match route {
+            "ctx" => {
+                let mut c = base.clone();
+                go(&mut c);
+                (*c.root(), c.as_ref().clone())
+            }
+            "interpreter" => {
+                let mut vm = Interpreter::<MemoryInstance, MemoryStorage, Script>::with_memory_storage();
+                *vm.receipts_mut() = base.clone();
+                go(vm.receipts_mut());
+                (*vm.compute_receipts_root(), vm.receipts().to_vec())
+            }
+            other => panic!("unknown limit route {other}"),
+        };
+        (root, list, outcomes)
+    });
+    let case = || limit_case(fill, attempts, route);
+    match obs {
+        Err(m) => {
+            acc.evals += 1;
+            acc.viol("C09:root:receipts_ctx".into(), format!("limit fill={fill} attempts={attempts:?} ({route}): panicked: {m}"), case());
+        }
+        Ok((root, list, outcomes)) => {
+            *acc.hist.entry(format!("limit:fill={fill}:[{}]:holds={}", outcomes.join(","), list.len())).or_insert(0) += 1;
+            let exp = receipts_mth(&list);
+            if fill == 65_533 && attempts == [0] && route == "ctx" {
+                acc.samples.push(json!({"space": "L", "filled": fill, "attempts": outcomes, "context_holds": list.len(),
+                    "root": hx(&root), "rfc6962_mth_of_held_receipts": hx(&exp)}));
+            }
+            acc.cmp("receipts_ctx", &format!("limit:{route}"), list.len() as u64, Ok(root), &exp, case);
+        }
+    }
+}
+
 // ------------------------------------------------------------------ executed scripts
 
 const ENDINGS: [&str; 3] = ["ret", "rvrt", "panic"];
 
+const LIMIT_SCRIPTS: [&str; 3] = ["loop_until_too_many_receipts", "panic_after_max_minus_2_logs", "ret_after_max_minus_3_logs"];
+
+/// Programs that run into the receipt limit (k is not used for them).
+fn limit_prog(ending: &str) -> Option<Vec<fuel_asm::Instruction>> {
+    let max = ReceiptsCtx::MAX_RECEIPTS as u32;
+    let log = op::log(RegId::ZERO, RegId::ZERO, RegId::ZERO, RegId::ZERO);
+    let counted = |n: u32, last: fuel_asm::Instruction| {
+        vec![op::movi(0x10, n), log, op::subi(0x10, 0x10, 1), op::jnzb(0x10, RegId::ZERO, 1), last]
+    };
+    match ending {
+        "loop_until_too_many_receipts" => Some(vec![log, op::jmpb(RegId::ZERO, 0)]),
+        "panic_after_max_minus_2_logs" => Some(counted(max - 2, op::div(0x10, RegId::ZERO, RegId::ZERO))),
+        "ret_after_max_minus_3_logs" => Some(counted(max - 3, op::ret(RegId::ONE))),
+        _ => None,
+    }
+}
+
 fn script_tx(k: u64, ending: &str) -> fuel_vm::checked_transaction::Checked<Script> {
     let mut prog = vec![];
+    if let Some(p) = limit_prog(ending) {
+        return checked_script(p)
+    }
     for j in 0..k {
         prog.push(op::movi(0x10, (j + 1) as u32));
         if j % 2 == 0 {
@@ -445,6 +552,10 @@ fn script_tx(k: u64, ending: &str) -> fuel_vm::checked_transaction::Checked<Scri
         "panic" => op::div(0x10, RegId::ONE, RegId::ZERO),
         other => panic!("unknown ending {other}"),
     });
+    checked_script(prog)
+}
+
+fn checked_script(prog: Vec<fuel_asm::Instruction>) -> fuel_vm::checked_transaction::Checked<Script> {
     let params = ConsensusParameters::standard();
     let secret = fuel_crypto::SecretKey::try_from(fuel_types::Bytes32::from([0x07u8; 32])).expect("secret key");
     TransactionBuilder::script(prog.into_iter().collect(), vec![])
@@ -534,6 +645,7 @@ fn explore(ctx: &Ctx) {
         "dont_care",
         json!([
             "the number/kind of receipts a script produces (only: committed root == MTH of the receipts the VM reports)",
+            "whether a push near MAX_RECEIPTS is accepted or rejected (C28); only: root() == MTH of the receipts the context holds afterwards",
             "node storage contents and proofs (C10, C11)",
             "roots of calculators built with new_with_stack from arbitrary stacks"
         ]),
@@ -693,6 +805,48 @@ fn explore(ctx: &Ctx) {
     );
     ctx.set("space_X", json!({"k": format!("0..={xk}"), "endings": ENDINGS, "done_at_s": ctx.elapsed(), "vm": ["fresh per script", "one VM reused for k = 0,1,2,.. in order"],
                               "script": "k x (MOVI r,j+1; LOG r,r,zero,one | LOGD r,zero,zero,r alternating) + ending"}));
+    // ---- X at the limit: scripts that run into the receipt limit
+    let nls = ctx.pick(2usize, 3usize);
+    space::par_chunks(
+        nls as u64,
+        1,
+        Acc::default,
+        |e, acc| {
+            let ending = LIMIT_SCRIPTS[e as usize];
+            let mut t = new_txor();
+            let o = run_script(&mut t, 0, ending);
+            check_script_obs(0, ending, false, o, acc);
+        },
+        |acc| acc.merge_into(ctx, &mut totals),
+    );
+    ctx.set("space_X_limit", json!({"scripts": &LIMIT_SCRIPTS[..nls], "done_at_s": ctx.elapsed()}));
+
+    // ---- L: ReceiptsCtx at the limit
+    let lk = ctx.pick(2u32, 3u32);
+    let nseq = space::seq_count(3, lk);
+    let bases: Vec<Option<ReceiptsCtx>> = LIMIT_FILLS.iter().map(|f| limit_base(*f)).collect();
+    for (f, b) in LIMIT_FILLS.iter().zip(&bases) {
+        if b.is_none() {
+            ctx.outcome(&format!("limit:fill={f}:not_reachable_by_logs+panic+script_result"), 1);
+        }
+    }
+    space::par_chunks(
+        4 * nseq,
+        1,
+        Acc::default,
+        |u, acc| {
+            let (fi, si) = ((u / nseq) as usize, u % nseq);
+            let Some(base) = &bases[fi] else { return };
+            let attempts = space::seq_at(3, lk, si);
+            check_limit(base, LIMIT_FILLS[fi], &attempts, "ctx", acc);
+            if attempts.len() <= 1 {
+                check_limit(base, LIMIT_FILLS[fi], &attempts, "interpreter", acc);
+            }
+        },
+        |acc| acc.merge_into(ctx, &mut totals),
+    );
+    ctx.set("space_L", json!({"fills": LIMIT_FILLS, "attempt_alphabet": LIMIT_ATTEMPTS, "max_attempts": lk, "sequences_per_fill": nseq,
+                              "routes": {"ctx": "all sequences", "interpreter": "sequences of length <= 1"}, "done_at_s": ctx.elapsed()}));
     if !totals.is_empty() {
         ctx.set("violation_counts", json!(totals));
     }
@@ -739,6 +893,12 @@ fn replay(case: &Value, ctx: &Ctx) {
             }
             let o = run_script(&mut t, k, &ending);
             check_script_obs(k, &ending, reused, o, &mut acc);
+        }
+        Some("limit") => {
+            let fill = case["fill"].as_u64().expect("fill");
+            let attempts: Vec<u64> = case["attempts"].as_array().expect("attempts").iter().map(|a| a.as_u64().unwrap()).collect();
+            let base = limit_base(fill).expect("limit base");
+            check_limit(&base, fill, &attempts, case["route"].as_str().expect("route"), &mut acc);
         }
         Some("leaf_sum") | Some("empty_sum") => check_hash_primitives(&mut acc),
         other => panic!("unknown case kind {other:?}"),
